@@ -207,7 +207,7 @@ PROP = Prop(
           "distinct by hash of (parameters, operations)."),
     workloads=[
         Workload("grid", wl_grid, quick=162, thorough=162),
-        Workload("history", wl_history, quick=1200, thorough=100000),
+        Workload("history", wl_history, quick=1200, thorough=400000),
     ],
     assumptions=["only the lower bound of the retention window is asserted (Bloom false positives may keep a key longer); a key must be present while FEWER than (Q-1)*est further effective insertions happened ('until' read strictly)",
                  "the lazy-FIFO layout model is a diagnostic (counted in evidence), not a verdict: the statement does not pin when a rotation happens",
